@@ -188,7 +188,7 @@ def _one_field_cases(tier):
                 for order in ([(seed + i + rep + a_i) % 2] if tier == "quick" else [0, 1]):
                     mode = "Diffuse" if rng.random() < 0.75 else "Target"
                     yield {
-                        "field": i, "order": order, "mode": mode, "alt_pick": a_i, "n": int(rng.choice([150, 300])),
+                        "field": i, "order": order, "mode": mode, "alt_pick": a_i, "scan": [None, "scan_top", "scan_leaf"][(seed + i + a_i + rep) % 3], "n": int(rng.choice([150, 300])),
                         "spectrum": [{"id": "monospectrum", "log_nu_energy": float(rng.choice([9.5, 10.5]))}, {"id": "powerspectrum", "index": 1.5, "lower_bound": 9.0, "upper_bound": 11.0}][int(rng.integers(0, 2))],
                         "cloud": [{"id": "no_cloud"}, {"id": "monocloud", "altitude": 4.0}, {"id": "pressure_map", "month": int(rng.integers(1, 13))}][int(rng.integers(0, 3))],
                         "optical": True, "radio": True, "det": float(rng.choice([525.0, 2000.0, 400.0])), "lat": 0.3, "lon": 1.1,
@@ -208,6 +208,9 @@ def body_one_field(case):
     plain = dict(case, tweaks=[] if v_plain is None else [[path, v_plain]])
     other = dict(case, tweaks=[[path, v_other]])
     first, second = (other, plain) if case["order"] == 0 else (plain, other)
+    if case.get("scan"):
+        # the earlier and the later run use ONE configuration object edited in place (sections re-bound / leaf by leaf)
+        first, second = dict(first, held=case["scan"]), dict(second, held=case["scan"])
     # both sides run in fresh interpreters: the pair (A', A) in one, A alone in another - whatever earlier cases left in
     # THIS worker process cannot mask (or fake) a dependence of A on A'
     ctx = mp.get_context("spawn")
@@ -244,6 +247,8 @@ def body_one_field(case):
     require(not diff, f"a seeded run differs from the same run in a fresh interpreter in {diff[:6]}; its process had before run the same configuration except {'.'.join(path)} = {(v_other if case['order'] == 0 else v_plain)!r} instead of {(v_plain if case['order'] == 0 else v_other)!r}")
     n_rows, radio_on = seq[1], seq[2]
     labels = {".".join(path[-2:])}
+    if case.get("scan"):
+        labels.add("one_config_object_edited_between_runs")
     if n_rows > 0:
         labels.add("survivors")
     if radio_on:
